@@ -21,6 +21,7 @@ import (
 	"path/filepath"
 	"runtime"
 	"strings"
+	"sync"
 	"testing"
 	"time"
 
@@ -61,6 +62,9 @@ type c19Needles struct {
 	NATSUser, NATSPass                 string
 	ServerID, Namespace, DirName       string
 	Group                              string
+	// AdvHost is the host name the server advertises to clients (`host`); the
+	// server listens on 127.0.0.1 (`listen`)
+	AdvHost string
 }
 
 func c19NewNeedles(rng *kit.RNG) c19Needles {
@@ -69,6 +73,55 @@ func c19NewNeedles(rng *kit.RNG) c19Needles {
 		MsgValue: c19Word(rng, "value-"), MsgKey: c19Word(rng, "key-"), HeaderVal: c19Word(rng, "hdr-"),
 		NATSUser: c19Word(rng, "user-"), NATSPass: c19Word(rng, "pass-"),
 		ServerID: c19Word(rng, "srv-"), Namespace: c19Word(rng, "ns-"), DirName: c19Word(rng, "dir-"), Group: c19Word(rng, "grp-"),
+		AdvHost: c19Word(rng, "adv-") + "." + c19Word(rng, "zone-") + ".internal",
+	}
+}
+
+// c19Host: the facts of the environment this process (and so every in-process
+// server and collector) runs in, plus the values of the environment variables
+// planted by c19PlantEnv.  They are needles of every enabled-telemetry
+// judgement (see kit/c19host.go).
+var (
+	c19HostOnce sync.Once
+	c19Host     *kit.C19HostFacts
+)
+
+func c19HostFacts() *kit.C19HostFacts {
+	c19HostOnce.Do(func() {
+		c19Host = kit.NewC19HostFacts(kit.C19LegitStrings(Version))
+		c19Host.AddThisProcess()
+	})
+	return c19Host
+}
+
+// c19PlantEnv sets the environment variables of kit.C19EnvPlantNames to seeded
+// distinctive values for the lifetime of the unit, registers them as needles
+// and states in the report exactly which host facts are searched.  The
+// returned function restores the environment.
+func c19PlantEnv(rep *kit.Report) func() {
+	h := c19HostFacts()
+	plants := kit.C19EnvPlants(kit.NewRNG(kit.Mix(kit.Seed(), 0xC19E)))
+	type old struct {
+		v   string
+		had bool
+	}
+	olds := map[string]old{}
+	for k, v := range plants {
+		o, had := os.LookupEnv(k)
+		olds[k] = old{o, had}
+		os.Setenv(k, v)
+	}
+	h.AddEnv(plants)
+	rep.Assume(h.Describe() + ".  Also a needle of every judged report: the host name the server advertises to clients (`host`, seeded, e.g. adv-xxxxxxxxxx.zone-xxxxxxxxxx.internal; the server listens on 127.0.0.1 through `listen`) as a whole, its first label and its domain part")
+	rep.Count("host_environment_needles_searched", int64(len(h.Needles)))
+	return func() {
+		for k, o := range olds {
+			if o.had {
+				os.Setenv(k, o.v)
+			} else {
+				os.Unsetenv(k)
+			}
+		}
 	}
 }
 
@@ -84,11 +137,18 @@ func (n c19Needles) asMap(natsURL string, listen string) map[string]string {
 	}
 	if listen != "" {
 		m["address#listen"] = listen
+		if _, port, err := net.SplitHostPort(listen); err == nil {
+			m["address#advertised-hostport"] = net.JoinHostPort(n.AdvHost, port)
+		}
 	}
-	legit := runtime.GOOS + " " + runtime.GOARCH + " " + runtime.Version() + " " + Version
-	if h, err := os.Hostname(); err == nil && len(h) >= 4 && !strings.Contains(legit, h) {
-		m["address#hostname"] = h
+	if n.AdvHost != "" {
+		m["address#advertised-host"] = n.AdvHost
+		if first, rest, ok := strings.Cut(n.AdvHost, "."); ok {
+			m["address#advertised-host-first-label"] = first
+			m["address#advertised-host-domain"] = rest
+		}
 	}
+	c19HostFacts().Merge(m)
 	return m
 }
 
@@ -155,7 +215,8 @@ type c19Case struct {
 }
 
 func c19Yaml(n c19Needles, natsURL, dataDir, telemetry string) string {
-	return fmt.Sprintf(`host: 127.0.0.1
+	return fmt.Sprintf(`listen: 127.0.0.1:0
+host: %s
 port: 0
 data.dir: %s
 logging:
@@ -170,7 +231,7 @@ clustering:
   namespace: %s
   raft.bootstrap.seed: true
   min.insync.replicas: 1
-%s`, dataDir, natsURL, n.NATSUser, n.NATSPass, n.ServerID, n.Namespace, telemetry)
+%s`, n.AdvHost, dataDir, natsURL, n.NATSUser, n.NATSPass, n.ServerID, n.Namespace, telemetry)
 }
 
 // c19Config builds the server configuration the way the case's route says.
@@ -185,7 +246,8 @@ func c19Config(cs c19Case, n c19Needles, natsURL, dir string) (*Config, map[stri
 		return os.WriteFile(file, []byte(y), 0644)
 	}
 	programmatic := func(cfg *Config) {
-		cfg.Host = "127.0.0.1"
+		cfg.Listen = HostPort{Host: "127.0.0.1", Port: 0}
+		cfg.Host = n.AdvHost
 		cfg.Port = 0
 		cfg.DataDir = dataDir
 		cfg.NATS.Servers = []string{natsURL}
@@ -252,6 +314,8 @@ func TestVerifC19InProcess(t *testing.T) {
 	rep.Assume("documented field list = CHANGELOG.md 'Anonymous Telemetry / What's Collected' (instance id, version, OS name/version/architecture, CPU cores physical/logical, total memory); the payload's timestamp, os.platform (the three OS values joined) and cpu.frequency_mhz (always null) are counted into those categories")
 	rep.Assume("the environment-variable opt-out is documented in CHANGELOG.md ('Or via environment variables: export LIFTBRIDGE_TELEMETRY_ENABLED=false'); this unit uses only the documented spelling 'false' (other spellings of the opt-out: matrix and binary units); precedence between a config file that says true and the variable is not documented and not tested")
 	rep.Assume("a collector that used a transport of its own would not be seen here; that is what the strace unit (binary) is for")
+
+	defer c19PlantEnv(rep)()
 
 	rec := &kit.C19Recorder{}
 	oldTransport := http.DefaultTransport
